@@ -68,21 +68,27 @@ def _is_connected_cached(cls, x, y):
     if x == y:
         result = True
     else:
+        # First pass of sympy's MinMaxBase._is_connected: for each operator, try
+        # the pair in both orientations, swapping the Max/Min labels together
+        # with the arguments.
         t, f, result = sympy.Max, sympy.Min, False
-        for _ in range(2):
-            for op in "><":
+        done = False
+        for op in "><":
+            for _ in range(2):
                 try:
                     v = (x >= y) if op == ">" else (x <= y)
                 except TypeError:
+                    done = True  # non-real arg: not connected
                     break
                 if not v.is_Relational:
                     result = t if v else f
+                    done = True
                     break
                 t, f = f, t
                 x, y = y, x
-            if result is not False:
+            if done:
                 break
-            x, y = y, x
+            x, y = y, x  # next operator with reversed order relative to start
     if len(_is_connected_cache) >= 200_000:
         _is_connected_cache.clear()
     _is_connected_cache[key] = result
